@@ -11,6 +11,7 @@ import (
 	"net/http/httptest"
 	"net/http/httptrace"
 	"net/textproto"
+	"os"
 	"strconv"
 	"strings"
 	"time"
@@ -59,6 +60,9 @@ func (p *prop) Finish(*core.Session) {
 	if p.srv != nil {
 		p.srv.client.CloseIdleConnections()
 		p.srv.ts.Close()
+	}
+	if p.fsw != nil {
+		os.RemoveAll(p.fsw.dir)
 	}
 }
 
